@@ -384,3 +384,115 @@ Proof.
   exists (fun b : bool => if b then 1%nat else 0%nat), (false :: true :: nil), 5%nat.
   vm_compute. split; [lia|]. split; [discriminate | reflexivity].
 Qed.
+
+(* ------------------------------------------------------------------ maximality: nothing is
+   dropped that would still have fitted *)
+
+Section Maximal.
+  Context {A : Type} (cw : A -> nat).
+  Notation swidth := (swidth cw).
+
+  (** skip_fwd stops as early as it may: without the last skipped character the skipped width is
+      still below the requested one. *)
+  Lemma skip_fwd_minimal : forall l width acc r s,
+    skip_fwd cw l width acc = (r, s) ->
+    exists p, l = p ++ r /\ s = (acc + swidth p)%nat
+              /\ (p = [] \/ exists p' c, p = p' ++ [c] /\ (acc + swidth p' < width)%nat).
+  Proof.
+    induction l as [|c l IH]; intros width acc r s H; cbn [skip_fwd] in H.
+    - injection H as <- <-. exists []. cbn. repeat split; auto.
+    - destruct (Nat.leb_spec width acc) as [Hle|Hlt].
+      + injection H as <- <-. exists []. cbn. repeat split; auto.
+      + apply IH in H. destruct H as (p & -> & -> & Hor). exists (c :: p).
+        cbn [app C44.swidth]. split; [reflexivity|]. split; [lia|]. right.
+        destruct Hor as [->|(p' & c' & -> & Hlt')].
+        * exists [], c. cbn. split; [reflexivity | lia].
+        * exists (c :: p'), c'. cbn [app C44.swidth]. split; [reflexivity | lia].
+  Qed.
+
+  (** elide_end keeps a maximal prefix: the first character it leaves out would not have fitted
+      in front of the ellipsis. *)
+  Lemma elide_end_maximal : forall text ell max out w,
+    elide_end cw text ell max = EOut out w ->
+    (max < swidth text)%nat -> (swidth ell <= max)%nat ->
+    exists t c p, out = t ++ ell /\ text = t ++ c :: p
+                  /\ (max < swidth t + cw c + swidth ell)%nat.
+  Proof.
+    intros text ell max out w H Hgt Hefit. unfold elide_end in H.
+    destruct (truncate_end cw text max) as [[tk td] tw] eqn:Ht.
+    pose proof Ht as Ht0. unfold truncate_end in Ht0.
+    apply trunc_fwd_spec in Ht0. destruct Ht0 as (_ & _ & _ & Hnext).
+    apply truncate_end_spec in Ht. destruct Ht as (Htext & Htw & Htle & Htiff).
+    destruct td as [|c0 td'].
+    { assert (swidth text <= max)%nat by (apply Htiff; reflexivity). lia. }
+    destruct (truncate_end cw ell max) as [[ek ed] ew] eqn:He.
+    apply truncate_end_spec in He. destruct He as (Hell & Hew & Hele & Heiff).
+    assert (ed = []) by (apply Heiff; exact Hefit). subst ed. rewrite app_nil_r in Hell. subst ek.
+    unfold skip_end in H.
+    destruct (skip_fwd cw (rev tk) (tw - (max - ew)) 0) as [r' s'] eqn:Hs.
+    apply skip_fwd_minimal in Hs. destruct Hs as (p & Hrev & Hsk & Hmin). cbn [Nat.add] in *.
+    assert (Htk : tk = rev r' ++ rev p).
+    { rewrite <- rev_app_distr, <- Hrev, rev_involutive. reflexivity. }
+    assert (Htwsum : (tw = swidth (rev r') + s')%nat).
+    { rewrite Htw, Htk, swidth_app, swidth_rev, (swidth_rev cw p). lia. }
+    destruct (Nat.ltb_spec tw s') as [Hbad|_]; [lia|].
+    destruct (Nat.leb_spec (tw - s' + ew) max) as [_|Hbad]; [|discriminate].
+    injection H as <- <-.
+    destruct Hmin as [->|(p' & c & -> & Hlt)].
+    - (* nothing skipped: the first character dropped by the truncation is the witness *)
+      cbn [rev app] in Htk. rewrite app_nil_r in Htk.
+      exists (rev r'), c0, td'. split; [reflexivity|]. split; [rewrite Htext, Htk; reflexivity|].
+      cbn [C44.swidth] in Hsk. subst s'. rewrite <- Htk, <- Htw. lia.
+    - rewrite rev_app_distr in Htk. cbn [rev app] in Htk.
+      exists (rev r'), c, (rev p' ++ c0 :: td'). split; [reflexivity|]. split.
+      + rewrite Htext, Htk. rewrite <- app_assoc. reflexivity.
+      + rewrite swidth_app in Hsk. cbn [C44.swidth] in Hsk. lia.
+  Qed.
+
+  (** elide_start likewise keeps a maximal suffix (up to leading zero-width characters, which it
+      trims): the character just before what it keeps would not have fitted after the ellipsis. *)
+  Lemma elide_start_maximal : forall text ell max out w,
+    elide_start cw text ell max = EOut out w ->
+    (max < swidth text)%nat -> (swidth ell <= max)%nat ->
+    exists t c p, out = ell ++ t /\ (exists z, text = p ++ c :: z ++ t /\ swidth z = 0%nat)
+                  /\ (max < swidth ell + cw c + swidth t)%nat.
+  Proof.
+    intros text ell max out w H Hgt Hefit. unfold elide_start in H.
+    destruct (truncate_start cw text max) as [[tk td] tw] eqn:Ht.
+    pose proof Ht as Ht0. unfold truncate_start in Ht0.
+    destruct (trunc_fwd cw (rev text) max 0) as [[k0 d0] w0] eqn:Hr0.
+    injection Ht0 as Hk0 Hd0 Hw0.
+    apply trunc_fwd_spec in Hr0. destruct Hr0 as (_ & _ & _ & Hnext).
+    apply truncate_start_spec in Ht. destruct Ht as (Htext & Htw & Htle & Htiff).
+    destruct td as [|c0 td'] eqn:Etd.
+    { assert (swidth text <= max)%nat by (apply Htiff; reflexivity). lia. }
+    destruct (truncate_start cw ell max) as [[ek ed] ew] eqn:He.
+    apply truncate_start_spec in He. destruct He as (Hell & Hew & Hele & Heiff).
+    assert (ed = []) by (apply Heiff; exact Hefit). subst ed. cbn [app] in Hell. subst ek.
+    destruct (skip_start cw tk (tw - (max - ew))) as [rem skipped] eqn:Hs.
+    unfold skip_start in Hs. apply skip_fwd_minimal in Hs.
+    destruct Hs as (p & Htk & Hsk & Hmin). cbn [Nat.add] in *.
+    assert (Htwsum : (tw = skipped + swidth rem)%nat).
+    { rewrite Htw, Htk, swidth_app. lia. }
+    destruct (Nat.ltb_spec tw skipped) as [Hbad|_]; [lia|].
+    destruct (Nat.leb_spec (ew + (tw - skipped)) max) as [_|Hbad]; [|discriminate].
+    injection H as <- <-.
+    destruct (trim_suffix cw rem) as (z & Hz & Hzw).
+    assert (Hremw : swidth (trim_start_zero cw rem) = swidth rem) by apply swidth_trim.
+    destruct Hmin as [->|(p' & c & -> & Hlt)].
+    - (* nothing skipped: the last character dropped by the truncation is the witness *)
+      cbn [app] in Htk. subst rem. cbn [C44.swidth] in Hsk. subst skipped.
+      (* the dropped prefix is rev d0, whose last character is the head of d0 *)
+      destruct d0 as [|cd d0'].
+      { cbn [rev] in Hd0. discriminate. }
+      cbn [rev] in Hd0.
+      exists (trim_start_zero cw tk), cd, (rev d0'). split; [reflexivity|]. split.
+      + exists z. split; [|exact Hzw]. rewrite Htext, <- Hd0, <- app_assoc. cbn [app].
+        f_equal. f_equal. exact Hz.
+      + rewrite Hremw. subst w0. rewrite <- Hk0 in Htw. rewrite swidth_rev in Htw. lia.
+    - exists (trim_start_zero cw rem), c, ((c0 :: td') ++ p'). split; [reflexivity|]. split.
+      + exists z. split; [|exact Hzw]. rewrite Htext, Htk. rewrite <- !app_assoc. cbn [app].
+        f_equal. f_equal. f_equal. f_equal. exact Hz.
+      + rewrite Hremw. rewrite swidth_app in Hsk. cbn [C44.swidth] in Hsk. lia.
+  Qed.
+End Maximal.
